@@ -46,9 +46,9 @@ def run_pgen(run_dir, records, workers=2, timeout=900):
     return res, bad
 
 
-def enum_grammars(run_dir, nrules, depth, deep):
+def enum_grammars(run_dir, nrules, depth, deep, family='all'):
     tlc.prepare(run_dir, ['Ebnf', 'GrammarEnum'])
-    cfg = 'SPECIFICATION Spec\nCONSTANTS NRules = %d\nDepth = %d\nDeepRules = %d\n' % (nrules, depth, deep)
+    cfg = 'SPECIFICATION Spec\nCONSTANTS NRules = %d\nDepth = %d\nDeepRules = %d\nFamily = "%s"\n' % (nrules, depth, deep, family)
     res = tlc.run(run_dir, 'GrammarEnum', cfg, workers=4, timeout=1200)
     out = []
     for m in re.finditer(r'^<<"G", <<(.*)>>>>$', res.out, re.M):
@@ -119,9 +119,11 @@ def run(tier):
         # enumerated grammars
         g2, r2 = enum_grammars(scratch.sub('enum2'), 2, 1, 2)
         gd, rd = enum_grammars(scratch.sub('enumd'), 2, 2, 1)
-        out.add('states', r2.distinct + rd.distinct)
-        out.add('transitions', r2.generated + rd.generated)
-        enum_total = len(g2) + len(gd)
+        gl, rl = enum_grammars(scratch.sub('enuml'), 1, 2, 1, 'loops')
+        out.add('states', r2.distinct + rd.distinct + rl.distinct)
+        out.add('transitions', r2.generated + rd.generated + rl.generated)
+        enum_total = len(g2) + len(gd) + len(gl)
+        out.cov(loop_grammars=len(gl))
         if tier == 'quick':
             gd_use = rng.sample(gd, min(len(gd), 6000))
             g3_use = []
@@ -132,7 +134,7 @@ def run(tier):
             out.add('transitions', r3.generated)
             enum_total += len(g3)
             g3_use = g3
-        allg = g2 + gd_use + g3_use + PROBES
+        allg = g2 + gd_use + g3_use + gl + PROBES
         size = 3000
         for i in range(0, len(allg), size):
             jobs.append((scratch.sub('e%d' % i), allg[i:i + size], 'enumerated'))
@@ -161,7 +163,8 @@ def run(tier):
                 distinct_nontrivial=len(set(allg)) + len(VERSIONS),
                 rule='grammars = the 9 shipped grammar files (every rule, DFA state and plan entry, exported from the '
                      'live objects) + every grammar TLC enumerates from GrammarEnum (2 rules depth<=1: all; 2 rules with '
-                     'one depth-2 rule: all in thorough, 6000 sampled in quick; 3 rules depth<=1: thorough only) + 10 '
+                     'one depth-2 rule: all in thorough, 6000 sampled in quick; 3 rules depth<=1: thorough only; every loop around '
+                     'a nullable body of depth <= 2) + 10 '
                      'hand-made probes; each goes through the real generate_grammar and its verdict/tables are checked '
                      'by TLC against Pgen; traces_validated = grammars whose generated tables were validated')
         for t in [g2[7], gd_use[3], PROBES[2]]:
